@@ -34,10 +34,31 @@ def _stream(draw, framing, uid):
 
 
 @st.composite
+def _any_stream(draw, framing, uid, direction):
+    """valid frames of every message type of one direction"""
+    frames = []
+    for i in range(draw(st.integers(1, 3))):
+        for _ in range(4):
+            kind, f = draw(gens.message(direction, spec_mode=True))
+            if framing == 'rtu' and kind.endswith(':8'):
+                f = dict(f, data=(f['data'][:1] or [0]))
+            fr = refframe.build(framing, uid, specpdu.encode(kind, f), 0x1100 + i, 0)
+            if len(fr) <= 300 and not (framing == 'binary' and refframe.binary_fragile(fr)):
+                frames.append(fr)
+                break
+    return frames or [refframe.build(framing, uid, bytes.fromhex('0600010002'), 0x1100, 0)]
+
+
+@st.composite
 def _case(draw):
     framing = draw(st.sampled_from(FRAMINGS))
     uid = draw(st.sampled_from([1, 1, 2, 17, 0x30, 247]))
-    frames = draw(_stream(framing, uid))
+    direction = draw(st.sampled_from(['req', 'req', 'any-req', 'any-rsp']))
+    if direction == 'req':
+        frames = draw(_stream(framing, uid))
+    else:
+        direction = direction[4:]
+        frames = draw(_any_stream(framing, uid, direction))
     style = draw(st.sampled_from(['bits', 'bits', 'any', 'any', 'char', 'nested']))
     total = sum(len(f) for f in frames)
     if style == 'nested':
@@ -55,7 +76,7 @@ def _case(draw):
         start = {'binary': b'{', 'ascii': b':'}.get(framing, draw(st.binary(min_size=1, max_size=1)))
         pre = noise + start + filler
         return {'framing': framing, 'uid': uid, 'frames': [pre.hex()] + [f.hex() for f in frames], 'muts': [], 'cut': draw(gens.cuts()),
-                'via_server': False}
+                'via_server': False, 'dir': direction}
     if style == 'bits':
         muts = [['flip', draw(st.integers(0, total - 1)), draw(st.integers(0, 7))] for _ in range(draw(st.integers(1, 3)))]
         if draw(st.integers(0, 3)) == 0:
@@ -64,16 +85,41 @@ def _case(draw):
         muts = [['sub', draw(st.integers(0, total - 1)), draw(st.one_of(st.sampled_from(gens.MUT_BYTES), st.integers(0, 255)))]]
     else:
         muts = draw(st.lists(gens.mutation(), min_size=1, max_size=4))
-    return {'framing': framing, 'uid': uid, 'frames': [f.hex() for f in frames], 'muts': muts, 'cut': draw(gens.cuts()),
-            'via_server': draw(st.integers(0, 3)) == 0 and framing != 'tcp'}
+    return {'framing': framing, 'uid': uid, 'frames': [f.hex() for f in frames], 'muts': muts, 'cut': draw(gens.cuts()), 'dir': direction,
+            'via_server': draw(st.integers(0, 3)) == 0 and framing != 'tcp' and direction == 'req'}
 
 
 def strategy(tier):
     return _case()
 
 
+# message kinds whose PDU size does not depend on their content
+FIXED_PDU = {'req': {1: 5, 2: 5, 3: 5, 4: 5, 5: 5, 6: 5, 22: 7}, 'rsp': {5: 5, 6: 5, 15: 5, 16: 5, 22: 7}}
+
+
 def sweeps(tier):
     out = []
+    # TCP has no checksum: the only integrity information is the length field.  Every fixed-size message kind, in both
+    # directions, with its length field raised or lowered and the bytes to fill it available (appended bytes / the next frame)
+    cases = []
+    samples = {'req': ['0100130013', '0200c40016', '03006b0003', '0400080001', '0500acff00', '0600010003', '160004 00f2 0025'.replace(' ', '')],
+               'rsp': ['0500acff00', '0600010003', '0f0013000a', '1000010002', '16000400f20025']}
+    nxt = {'req': '03006b0003', 'rsp': '0302002a'}
+    for d in ('req', 'rsp'):
+        for hx in samples[d]:
+            pdu = bytes.fromhex(hx)
+            good = refframe.build('tcp', 0x11, pdu, 7, 0)
+            follow = refframe.build('tcp', 0x11, bytes.fromhex(nxt[d]), 8, 0)
+            for delta in (1, 2, 3, 4, 9, -1, -2):
+                ln = len(pdu) + 1 + delta
+                if ln < 2:
+                    continue
+                bad = good[:4] + bytes([ln >> 8, ln & 0xFF]) + good[6:]
+                for tail in (follow, b'\x00' * 12, follow + follow):
+                    cases.append({'framing': 'tcp', 'dir': d, 'uid': 0x11, 'frames': [(bad + tail).hex()], 'muts': [], 'cut': ['whole'], 'via_server': False})
+            for bit in range(16):
+                cases.append({'framing': 'tcp', 'dir': d, 'uid': 0x11, 'frames': [good.hex(), follow.hex()], 'muts': [['flip', 4 + bit // 8, bit % 8]], 'cut': ['whole'], 'via_server': False})
+    out.append(('tcp-length-field-corruptions-of-fixed-size-messages', cases, True))
     pdus = [specpdu.encode('req:6', {'address': 3, 'value': 0x1234}), specpdu.encode('req:5', {'address': 9, 'value': 0xFF00}),
             specpdu.encode('req:16', {'address': 2, 'registers': [1, 0x0B0B]}), specpdu.encode('req:15', {'address': 1, 'bits': [True, False, True]})]
     if tier == 'thorough':
@@ -141,7 +187,9 @@ def run_case(case):
     if not found:
         labels.append('no-valid-frame-in-stream')
     # ---- (A)/(B) at framer level
-    proxy = pm.RecordingDecoder(pm.decoder('req'))
+    direction = case.get('dir', 'req')
+    labels.append('dir:' + direction)
+    proxy = pm.RecordingDecoder(pm.decoder(direction))
     fr = pm.framer_class(framing)(proxy)
     fed = b''
     delivered = []
@@ -158,6 +206,13 @@ def run_case(case):
             duid = m.unit_id if m is not None else uid
             tid = m.transaction_id if (m is not None and framing == 'tcp') else None
             pid = m.protocol_id if (m is not None and framing == 'tcp') else None
+            fixed = FIXED_PDU[direction].get(pdu[0]) if pdu else None
+            if framing == 'tcp' and m is not None and fixed is not None and len(pdu) != fixed:
+                # "an MBAP length consistent with the PDU": a message of a fixed-size kind was delivered from a frame whose
+                # length field covers more (or fewer) bytes than that message has
+                discs.append(Disc('unjustified-delivery', 'tcp %s: a %d-byte PDU %s was delivered as function %d, whose PDU has %d bytes (MBAP length not consistent with the message); fed %s' % (
+                    direction, len(pdu), pdu.hex()[:40], pdu[0], fixed, fed.hex()[:120])))
+                break
             if not refframe.justified(framing, fed, duid, pdu, tid, pid):
                 discs.append(Disc('unjustified-delivery', '%s: PDU %s (unit %r) handed to the decoder but no valid frame for it in the bytes fed so far (%s); original %s, mutations %r' % (
                     framing, pdu.hex()[:60], duid, fed.hex()[:120], original.hex()[:120], case['muts'])))
